@@ -68,7 +68,20 @@ claim("C07", "DESIGN.md §2 C07",
       "affine writer/reader table comparison, dominance path rules, call-site inventory",
       COMMON_NOTE)
 
+claim("C08", "DESIGN.md §2 C08",
+      "Decides two structural clauses of the record-list property (resolution of every key for every key set and order is a property of runtime byte strings and is NOT decided): (splice) Index.Update/Remove replace exactly the byte range [r.Pos, r.NextPos()) of the record found for the addressed key, by one entry carrying the record's own stored prefix and the new location, or by nothing; Index.Put replaces nothing at the insertion position or exactly [prevRecord.Pos, pos); (trim-neighbours) in the non-prefix branch the new entry's stored prefix ends at 1+min(max(first non-common byte with previous, with next), len-1), each neighbour ignored only when it does not exist, with the max/min helpers verified to return the larger/smaller argument; entry writer/reader offsets agree.",
+      "value provenance and affine checks at PutKeys call sites; ordering-domain summary of max/min helpers; phi-entry edge analysis",
+      COMMON_NOTE)
+
+claim("C09", "DESIGN.md §2 C09",
+      "Structural necessary conditions of 're-bucketing keeps contents; mismatching file sizes are refused': translateIndex starts only on the errors.As(ErrIndexWrongBitSize) edge of index.Open's error; between reading the header and refusing with the three mismatch errors no call that may (transitively) modify files is made and the refusal sits on the header != requested edge; in translateIndex old files are displaced only after both indexes closed successfully, new ones installed after that, the displaced copy deleted only after a successful install; every record the old iterator returns reaches newIndex.Put with the key read from the primary at the record's location and the location unchanged. The crash clause (two non-atomic MoveFiles, observation O-3) and contents equality are not decided.",
+      "dominance path rules, transitive file-effect summaries over the call graph, value provenance",
+      COMMON_NOTE)
+
+claim("C10", "DESIGN.md §2 C10",
+      "Ordering/shape clauses of the legacy upgrade (NOT equality of contents or resumability at every crash point): upgradePrimary applies the pending freelist before chunking (excused only without a freelist), chunks only if that succeeded, header only after successful chunking, legacy file removed only after the header; upgradeIndex converts only version 2 with the same order; remapIndex rewrites offsets only in .tmp copies, closes before renaming temp over original, records completion only after the per-file loop and always queues un-remappable entries for deletion; the five start-a-new-file tests use the same >= relation; chunkOldPrimary/applyFreeList honour the deleted bit.",
+      "gated must-precede path rules, affine sibling comparison of rollover tests",
+      COMMON_NOTE)
+
 PENDING = "check for this property is still being built in this session; see DESIGN.md for the planned structural rules"
-for p in ["C08","C09","C10"]:
-    na(p, PENDING)
 na("C11", "progress, reclaimed byte counts, 'bounded number of cycles' and fixed points are quantities of executions; no refactoring-stable structural necessary condition exists beyond safety rules already claimed under C04/C07 (DESIGN.md §2 C11)")
